@@ -1193,6 +1193,21 @@ def replay(path):
         for name, rc, stderr, cmd in res:
             print("%s: exit %s\n%s" % (name, rc, stderr[-2000:]))
         return 0
+    if rec.get("node"):
+        # a finding of the IR-location oracle (tie_module_ir): re-run it on this input
+        class _Probe:
+            extra = {}
+
+            def count(self):
+                pass
+
+            def nontrivial(self, _k):
+                pass
+
+            def violation(self, _kind, ctx, **kw):
+                print("VIOLATES:", kw.get("key"), "-", ctx.get("observed"))
+        n = drv.tie_module_ir(_Probe(), None, [{"kind": "replay", "files": files, "main": main}], 1, 1000)
+        print("IR-location oracle: %d problem(s) on this tree" % n, _Probe.extra.get("module_ir_locations"))
     if rec.get("op"):
         print("op:", rec["op"][:500])
         print("model:", ask([rec["op"]])[0][:500])
